@@ -351,3 +351,28 @@ func H_C04_unscoped_same_names() {
 	vCheckAgainstRef("C04 unscoped rule set vs same-named nested fields", err, r)
 	vReach("end")
 }
+
+// pointers into an object that is itself being validated (its first array element, its first field,
+// a later element): each marked path is validated and named on its own
+type vN9 struct {
+	Items   [2]vD3    `valid:"exist"`
+	Current *vD3      `valid:"exist"`
+	Other   *vD3      `valid:"required"`
+	Self    *vN9First `valid:"exist"`
+}
+
+type vN9First struct {
+	Head vD3    `valid:"exist"`
+	P    *vD3   `valid:"exist"`
+	X    string `valid:"r2"`
+}
+
+func H_C04_interior_pointers() {
+	o := &vN9{Items: [2]vD3{vD3Val("I0"), vD3Val("I1")}}
+	o.Current = &o.Items[0] // same address as o itself (first field, first element)
+	o.Other = &o.Items[1]
+	f := &vN9First{Head: vD3Val("H"), X: "x"}
+	f.P = &f.Head // same address as f
+	o.Self = f
+	vRunNested("C04 pointers into the object being validated", o, false)
+}
